@@ -89,7 +89,7 @@ func genC05(p *sim.Plan, r *sim.Rand, tier string) {
 		if r.Bool(0.3) {
 			at = 60_000_000 + (r.I64n(span)/5_000_000)*5_000_000 // coinciding instants
 		}
-		kind := []string{"c_emit", "c_ack", "s_emit", "s_ack", "bcast", "room", "c_disc", "s_disc"}[r.Weighted([]int{5, 4, 5, 4, 3, 3, 1, 1})]
+		kind := []string{"c_emit", "c_ack", "s_emit", "s_ack", "bcast", "room", "c_disc", "s_disc", "c_bin", "s_bin", "bcast_bin"}[r.Weighted([]int{5, 4, 5, 4, 3, 3, 1, 1, 3, 4, 2})]
 		if (kind == "c_disc" || kind == "s_disc") && discAt[s] != 0 {
 			continue
 		}
@@ -106,7 +106,7 @@ func genC05(p *sim.Plan, r *sim.Rand, tier string) {
 	var ops []sim.Op
 	for _, op := range p.Ops {
 		// (an acknowledged server emit makes the client send an ACK packet: the same thing)
-		if op.Kind == "c_emit" || op.Kind == "c_ack" || op.Kind == "s_ack" {
+		if op.Kind == "c_emit" || op.Kind == "c_ack" || op.Kind == "s_ack" || op.Kind == "c_bin" {
 			if d := discAt[sk{op.Actor, int(op.Int(0))}]; d > 0 && op.At > d-300_000_000 {
 				continue
 			}
@@ -145,6 +145,14 @@ func runC05(e *sim.Env) {
 		dels = append(dels, d)
 		mu.Unlock()
 	}
+	// binary attachments name their namespace and event too: frames of two namespaces that get mixed on
+	// the shared connection show as a foreign attachment (or as a parse error that ends the connection)
+	blobFor := func(ns string, id int) sio.Binary { return sio.Binary(fmt.Sprintf("blob|%s|%d|%s", ns, id, strings.Repeat("x", id%40))) }
+	checkBlob := func(side, handlerNs, ns string, id int, blob sio.Binary) {
+		if string(blob) != string(blobFor(ns, id)) {
+			e.Violate("C05/cross-namespace-delivery", "attachment", "%s-side handler of %q: event #%d of %q arrived with the attachment %.60q", side, handlerNs, id, ns, blob)
+		}
+	}
 	// server sockets by (namespace, socket id)
 	srvSock := map[string]sio.ServerSocket{}
 	connHandlerAt := map[string]int64{}
@@ -165,6 +173,10 @@ func runC05(e *sim.Env) {
 				sock.OnEvent("evack", func(ns string, m, id int, ack func(string, int)) {
 					rec(c05Delivery{side: "srv", handlerNs: n.Name(), handlerMgr: -1, payloadNs: ns, payloadMgr: m, id: id})
 					ack(n.Name(), id)
+				})
+				sock.OnEvent("evb", func(ns string, m, id int, blob sio.Binary) {
+					rec(c05Delivery{side: "srv", handlerNs: n.Name(), handlerMgr: -1, payloadNs: ns, payloadMgr: m, id: id})
+					checkBlob("srv", n.Name(), ns, id, blob)
 				})
 			})
 		}
@@ -199,6 +211,10 @@ func runC05(e *sim.Env) {
 		c.Socket.OnEvent("evack", func(pns string, pm, id int, ack func(string, int)) {
 			rec(c05Delivery{side: "cli", handlerNs: ns, handlerMgr: m, payloadNs: pns, payloadMgr: pm, id: id})
 			ack(ns, id)
+		})
+		c.Socket.OnEvent("evb", func(pns string, pm, id int, blob sio.Binary) {
+			rec(c05Delivery{side: "cli", handlerNs: ns, handlerMgr: m, payloadNs: pns, payloadMgr: pm, id: id})
+			checkBlob("cli", ns, pns, id, blob)
 		})
 		socks[k] = s
 		return s
@@ -286,6 +302,17 @@ func runC05(e *sim.Env) {
 						}
 					})
 				}
+			case "c_bin":
+				touch(m, ns)
+				s.c.Socket.Emit("evb", ns, m, id, blobFor(ns, id))
+			case "s_bin":
+				if ss := srvOf(s); ss != nil {
+					touch(m, ns)
+					ss.Emit("evb", ns, m, id, blobFor(ns, id))
+				}
+			case "bcast_bin":
+				touch(m, ns)
+				srv.Of(ns).Emit("evb", ns, -1, id, blobFor(ns, id))
 			case "bcast":
 				touch(m, ns)
 				srv.Of(ns).Emit("ev", ns, -1, id)
